@@ -14,6 +14,12 @@
  *   two-party agreement for all pairs of private values;
  *   crypto_dh_sanitycheck on 0, 1, p-2, p-1, p, p+1, 2^2048-1, p with every single byte +1/-1/00/ff,
  *   every single bit of p flipped (thorough: every pair of bytes +-1).
+ *   --deep (given by ./check to the thorough tier only; implies the thorough alphabets and adds to them):
+ *   40 private values (3, 2^32-1, 2^32, 2^63, 2^192, 2^255+2^254, aa.., 55.., 2^255-1, 2^256-3, 6 more LCG values),
+ *   67 peer values (4, 5, 7, 2^32, 2^63, 2^1023, 2^1025, 2^2046, p-3, p+3, p-2^64, p+2^64, q-1, aa.., 55.., 8 more LCG
+ *   values, 5 more values sharing a prefix with p, 64/192/248 leading zero bytes), 24 blinding values (~x, 2^256-2^128,
+ *   2^128-1, 2, 2^255-1, 2 more LCG values); sanitycheck additionally on p with every pair of bytes set to
+ *   {+1,-1,00,ff} x {+1,-1,00,ff} and every triple of bytes +-1.
  *
  * Oracle: engine/ref/bn_ref.c — schoolbook 32-bit-limb square-and-multiply written for this
  * framework (no OpenSSL BN), modulus parsed from the hexadecimal text of RFC 3526 section 3.
@@ -83,12 +89,14 @@ lcg_fill(uint8_t * buf, size_t len, uint64_t seed)
 	for (i = 0; i < len; i++) { s = s * 6364136223846793005ULL + 1442695040888963407ULL; buf[i] = (uint8_t)(s >> 56); }
 }
 
-#define MAXX 24
-#define MAXY 40
-#define MAXR 17
+#define MAXX 40
+#define MAXY 72
+#define MAXR 24
+#define NR_THOROUGH 17
 static uint8_t X[MAXX][32]; static int nX;
 static uint8_t Yv[MAXY][256]; static int nYfixed;	/* peer values that do not depend on x */
 static int nR;						/* blinding kinds, see blinding() */
+static int deep;					/* --deep: bounds beyond the thorough ones (header) */
 
 /*
  * Smallest y >= 3 such that y^(2^258+x) mod p has >= 1 (resp. >= 2) leading zero bytes, per
@@ -166,6 +174,20 @@ build_alphabets(void)
 		X[i][31] = 0x80; i++;
 		for (k = 0; k < 8; k++) { lcg_fill(X[i], 32, 104 + (uint64_t)k); i++; }
 	}
+	if (deep) {
+		X[i][31] = 3; i++;
+		be_set_pow2(X[i], 32, 32); be_add_small(X[i], 32, -1); i++;
+		be_set_pow2(X[i], 32, 32); i++;
+		be_set_pow2(X[i], 32, 63); i++;
+		be_set_pow2(X[i], 32, 192); i++;
+		X[i][0] = 0xc0; i++;
+		memset(X[i], 0xaa, 32); i++;
+		memset(X[i], 0x55, 32); i++;
+		memset(X[i], 0xff, 32); X[i][0] = 0x7f; i++;
+		memset(X[i], 0xff, 32); X[i][31] = 0xfd; i++;
+		for (k = 0; k < 6; k++) { lcg_fill(X[i], 32, 130 + (uint64_t)k); i++; }
+	}
+	if (i > MAXX) vf_engine_error("private-value table too small");
 	nX = i;
 
 	/* peer values */
@@ -197,8 +219,31 @@ build_alphabets(void)
 		lcg_fill(Yv[i], 128, 222); i++;				/* low half zero */
 		for (k = 0; k < 5; k++) { memcpy(Yv[i], P_be, 256); lcg_fill(Yv[i] + 8 + 40 * k, 30, 230 + (uint64_t)k); i++; }	/* shares a prefix with p */
 	}
+	if (deep) {
+		Yv[i][255] = 4; i++;
+		Yv[i][255] = 5; i++;
+		Yv[i][255] = 7; i++;
+		be_set_pow2(Yv[i], 256, 32); i++;
+		be_set_pow2(Yv[i], 256, 63); i++;
+		be_set_pow2(Yv[i], 256, 1023); i++;
+		be_set_pow2(Yv[i], 256, 1025); i++;
+		be_set_pow2(Yv[i], 256, 2046); i++;
+		memcpy(Yv[i], P_be, 256); be_add_small(Yv[i], 256, -3); i++;
+		memcpy(Yv[i], P_be, 256); be_add_small(Yv[i], 256, 3); i++;
+		memcpy(Yv[i], P_be, 256); be_add_small(Yv[i], 248, -1); i++;	/* p - 2^64 */
+		memcpy(Yv[i], P_be, 256); be_add_small(Yv[i], 248, 1); i++;	/* p + 2^64 */
+		memcpy(Yv[i], Yv[16], 256); be_add_small(Yv[i], 256, -1); i++;	/* q - 1 (Yv[16] is q) */
+		memset(Yv[i], 0xaa, 256); i++;
+		memset(Yv[i], 0x55, 256); i++;
+		for (k = 0; k < 8; k++) { lcg_fill(Yv[i], 256, 240 + (uint64_t)k); if (k & 1) Yv[i][0] &= 0x7f; i++; }
+		for (k = 0; k < 5; k++) { memcpy(Yv[i], P_be, 256); lcg_fill(Yv[i] + 16 + 40 * k, 30, 250 + (uint64_t)k); i++; }	/* shares a prefix with p */
+		lcg_fill(Yv[i] + 64, 192, 260); i++;			/* 64 leading zero bytes */
+		lcg_fill(Yv[i] + 192, 64, 261); i++;			/* 192 leading zero bytes */
+		lcg_fill(Yv[i] + 248, 8, 262); i++;			/* 248 leading zero bytes */
+	}
+	if (i > MAXY) vf_engine_error("peer table too small");
 	nYfixed = i;
-	nR = vf_tier ? MAXR : 6;
+	nR = deep ? MAXR : vf_tier ? NR_THOROUGH : 6;
 }
 #define NY (nYfixed + 2)	/* + the two x-dependent leading-zero peers */
 
@@ -228,7 +273,13 @@ blinding(int k, const uint8_t x[32], uint8_t r[32])
 	case 9: memset(r, 0xff, 32); r[31] = 0xfe; break;
 	case 10: be_set_pow2(r, 32, 128); break;
 	case 11: lcg_fill(r + 20, 12, 302); break;
-	default: lcg_fill(r, 32, 292 + (uint64_t)k); break;	/* 12..16 */
+	/* 17..23: --deep only */
+	case 17: { int j; for (j = 0; j < 32; j++) r[j] = (uint8_t)~x[j]; } break;
+	case 18: memset(r, 0xff, 16); break;
+	case 19: memset(r + 16, 0xff, 16); break;
+	case 20: r[31] = 2; break;
+	case 21: memset(r, 0xff, 32); r[0] = 0x7f; break;
+	default: lcg_fill(r, 32, 292 + (uint64_t)k); break;	/* 12..16, 22, 23 */
 	}
 	return 0;
 }
@@ -451,6 +502,31 @@ unit_sanity(uint64_t u)
 		}
 		return;
 	}
+	if (u > 512) {
+		/* deep: byte u-513 and every later pair of bytes, each +-1 */
+		int k, f;
+		i = (int)u - 513;
+		vf_setcase("sanity byte triples starting at %d", i);
+		for (j = i + 1; j < 256; j++) for (k = j + 1; k < 256; k++)
+			for (d = -1; d <= 1; d += 2) for (e = -1; e <= 1; e += 2) for (f = -1; f <= 1; f += 2) {
+				memcpy(v, P_be, 256); v[i] = (uint8_t)(v[i] + d); v[j] = (uint8_t)(v[j] + e); v[k] = (uint8_t)(v[k] + f); one_sanity(v, "byte-triple");
+			}
+		return;
+	}
+	if (u > 256) {
+		/* deep: byte u-257 and every later byte, each set to +1/-1/00/ff (the +-1 x +-1 combinations are the thorough ones above) */
+		i = (int)u - 257;
+		vf_setcase("sanity byte-pair values starting at %d", i);
+		for (j = i + 1; j < 256; j++)
+			for (d = 0; d < 4; d++) for (e = 0; e < 4; e++) {
+				if (d < 2 && e < 2) continue;
+				memcpy(v, P_be, 256);
+				v[i] = d == 0 ? (uint8_t)(v[i] + 1) : d == 1 ? (uint8_t)(v[i] - 1) : d == 2 ? 0x00 : 0xff;
+				v[j] = e == 0 ? (uint8_t)(v[j] + 1) : e == 1 ? (uint8_t)(v[j] - 1) : e == 2 ? 0x00 : 0xff;
+				one_sanity(v, "byte-pair-values");
+			}
+		return;
+	}
 	/* thorough: byte u-1 and every later byte, each +-1 */
 	i = (int)u - 1;
 	vf_setcase("sanity byte pairs starting at %d", i);
@@ -503,9 +579,10 @@ unescape_replay(const char * js)
 int
 main(int argc, char ** argv)
 {
-	int st; uint8_t ossl[256]; BIGNUM * bp; char hx[513];
+	int st, ai; uint8_t ossl[256]; BIGNUM * bp; char hx[513];
 
 	vf_init(&argc, argv, "h_dh");
+	for (ai = 1; ai < argc; ai++) if (!strcmp(argv[ai], "--deep")) { deep = 1; vf_tier = 1; }	/* deep extends the thorough alphabets */
 	if ((st = bnr_selftest()) != 0) vf_engine_error("bn_ref self-test failed at step %d", st);
 	bnr_rfc3526_group14(&P, P_be);
 	/* the reference constant against a third source (OpenSSL's table; constant only, no arithmetic) */
@@ -513,7 +590,8 @@ main(int argc, char ** argv)
 		vf_engine_error("reference modulus differs from BN_get_rfc3526_prime_2048()");
 	BN_free(bp);
 	build_alphabets();
-	vf_info("bounds", "private values %d, peer values %d (+generate_pub), blinding values %d incl. entropy failure; sanitycheck: specials, every single byte of p +1/-1/00/ff, every single bit%s", nX, NY, nR, vf_tier ? ", every pair of bytes +-1" : "");
+	vf_info("bounds", "private values %d, peer values %d (+generate_pub), blinding values %d incl. entropy failure; sanitycheck: specials, every single byte of p +1/-1/00/ff, every single bit%s%s", nX, NY, nR, vf_tier ? ", every pair of bytes +-1" : "",
+	    deep ? ", every pair of bytes {+1,-1,00,ff}x{+1,-1,00,ff}, every triple of bytes +-1 (--deep)" : "");
 	vf_info("reference_modulus", "%s", vf_hex(hx, sizeof(hx), P_be, 256));
 	vf_info("code_modulus", "%s", vf_hex(hx, sizeof(hx), crypto_dh_group14, 256));
 	if (vf_replay) {
@@ -534,7 +612,7 @@ main(int argc, char ** argv)
 	vf_parallel((uint64_t)nX * (uint64_t)(NY + 1), unit_modexp);
 	vf_parallel((uint64_t)nX, unit_generate);
 	vf_parallel((uint64_t)nX * (uint64_t)nX, unit_agree);
-	vf_parallel(vf_tier ? 256 : 1, unit_sanity);
+	vf_parallel(deep ? 769 : vf_tier ? 256 : 1, unit_sanity);
 
 	/* non-vacuity */
 	if (vf_nviolations() == 0 && !vf_deadline_hit()) {
